@@ -159,6 +159,7 @@ pub fn check_input(ctx: &mut Ctx, b: &[u8]) {
     parse_ep!(ctx, "from_slice<serde_json::Value>", b, sonic_rs::from_slice::<serde_json::Value>(sl));
     parse_ep!(ctx, "from_slice<RawNumber>", b, sonic_rs::from_slice::<sonic_rs::RawNumber>(sl));
     parse_ep!(ctx, "from_reader<Value>", b, sonic_rs::from_reader::<_, Value>(sl));
+    parse_ep!(ctx, "from_reader(short reads)<Value>", b, sonic_rs::from_reader::<_, Value>(crate::mon::common::ChunkReader { data: sl, chunk: 1 + b.len() % 5 }));
     if let Ok(s) = std::str::from_utf8(sl) {
         parse_ep!(ctx, "from_str<Value>", b, sonic_rs::from_str::<Value>(s));
         parse_ep!(ctx, "from_str<Rec>", b, sonic_rs::from_str::<Rec>(s));
